@@ -167,6 +167,9 @@ func (s *session) recover() (err error) {
 			return errors.SetFd(err, fd)
 		}
 
+		// A record that fails to decode must leave no trace, keep the fields
+		// read so far to restore them.
+		saved := *rec
 		err = rec.decode(r)
 		if err == nil {
 			// save compact pointers
@@ -181,6 +184,7 @@ func (s *session) recover() (err error) {
 				return
 			}
 			s.logf("manifest error: %v (skipped)", errors.SetFd(err, fd))
+			*rec = saved
 		}
 		rec.resetCompPtrs()
 		rec.resetAddedTables()
